@@ -51,7 +51,7 @@ var profiles = map[string]*profile{
 		cacheW: []wk{{model.CGetOrSet, 10}, {model.CGetOrCompute, 12}, {model.CCompute, 10}, {model.CGetAndSet, 8}, {model.CGetAndRefresh, 6}, {model.CSet, 2}, {model.CGetAndDelete, 3}, {model.CGet, 2}},
 		fillBias: "threshold", hashers: defaultHashers},
 	"C06": {prop: "C06", kinds: []string{"cache", "cacheof"}, hotMax: 2, thrMin: 2, thrMax: 3, opsMax: 3, cbAlways: true,
-		cacheW: []wk{{model.CDelete, 10}, {model.CGetAndDelete, 10}, {model.CDeleteExpired, 14}, {model.CSet, 8}, {model.CGetAndSet, 5}, {model.CCompute, 6}, {model.CGet, 4}, {model.CGetOrSet, 3}, {model.CClear, 2}, {model.CGetAndRefresh, 2}, {model.CSetCallback, 5}}},
+		cacheW: []wk{{model.CDelete, 10}, {model.CGetAndDelete, 10}, {model.CDeleteExpired, 14}, {model.CSet, 8}, {model.CGetAndSet, 5}, {model.CCompute, 6}, {model.CGet, 4}, {model.CGetOrSet, 3}, {model.CClear, 2}, {model.CGetAndRefresh, 2}, {model.CSetCallback, 5}, {model.CSetDefaultExp, 3}}},
 	"C07": {prop: "C07", kinds: []string{"map", "mapof", "cache", "cacheof"}, hotMax: 3, thrMin: 2, thrMax: 3, opsMax: 3, traverser: true,
 		mapW:   []wk{{model.MStore, 10}, {model.MDelete, 8}, {model.MLoadAndDelete, 4}, {model.MCompute, 6}, {model.MLoadOrStore, 4}, {model.MClear, 5}, {model.MRange, 6}, {model.MLoadAndStore, 3}},
 		cacheW: []wk{{model.CSet, 10}, {model.CDelete, 8}, {model.CGetAndDelete, 4}, {model.CCompute, 6}, {model.CGetOrSet, 4}, {model.CClear, 5}, {model.CRange, 4}, {model.CItems, 4}, {model.CDeleteExpired, 4}, {model.CGetAndSet, 3}},
@@ -64,7 +64,7 @@ var profiles = map[string]*profile{
 	// the readers of the resulting instants (TTL arguments biased to the sentinel)
 	"C09": {prop: "C09", kinds: []string{"cache", "cacheof"}, hotMax: 2, thrMin: 2, thrMax: 3, opsMax: 3,
 		cacheW: []wk{{model.CSetDefaultExp, 14}, {model.CSetDefault, 14}, {model.CSet, 8}, {model.CGetOrSet, 5}, {model.CGetAndSet, 4}, {model.CGetAndRefresh, 6}, {model.CGetOrCompute, 3},
-			{model.CCompute, 4}, {model.CGetTTL, 14}, {model.CGetExp, 8}, {model.CDefaultExp, 3}, {model.CGet, 4}}},
+			{model.CCompute, 4}, {model.CGetTTL, 14}, {model.CGetExp, 8}, {model.CDefaultExp, 3}, {model.CGet, 4}, {model.CSetCallback, 6}, {model.CDelete, 3}}},
 	"C13": {prop: "C13", kinds: []string{"map", "mapof", "cache", "cacheof"}, hotMax: 3, thrMin: 2, thrMax: 4, opsMax: 3,
 		mapW:   []wk{{model.MStore, 8}, {model.MDelete, 6}, {model.MCompute, 10}, {model.MLoadOrStore, 5}, {model.MLoadOrCompute, 5}, {model.MClear, 10}, {model.MRange, 8}, {model.MLoadAndDelete, 5}, {model.MLoad, 2}, {model.MLoadAndStore, 3}},
 		cacheW: []wk{{model.CSet, 8}, {model.CDelete, 6}, {model.CCompute, 10}, {model.CGetOrSet, 5}, {model.CGetOrCompute, 5}, {model.CClear, 10}, {model.CRange, 5}, {model.CItems, 3}, {model.CDeleteExpired, 8}, {model.CGetAndDelete, 5}, {model.CGet, 3}, {model.CGetAndRefresh, 4}, {model.CGetAndSet, 3}},
@@ -178,6 +178,12 @@ func genFill(rt *rapid.T, pf *profile, s adapt.Spec) (fill, keep int) {
 			f := irange(rt, grow-2, grow+6, "fill")
 			return f, f
 		default:
+			if rapid.Bool().Draw(rt, "byteWidthChain") {
+				// a chain of 250-266 entries: every count, index or offset the library keeps per chain in a
+				// byte wraps here (the hot keys land beyond the 255th overflow entry)
+				f := irange(rt, 250, 266, "fill")
+				return f, f
+			}
 			f := irange(rt, grow+2, grow+10, "fill")
 			return f, irange(rt, 0, 2, "keep")
 		}
@@ -346,6 +352,9 @@ func genProgram(rt *rapid.T, pf *profile) *Program {
 				o.D = pick(rt, []int64{model.NoExpiration, 0, 25, 777}, "newDefault")
 			case model.CSetCallback:
 				o.On = rapid.Bool().Draw(rt, "install")
+				if o.On {
+					o.N = irange(rt, 1, 2, "whichCallback")
+				}
 			case model.MRange, model.CRange:
 				if irange(rt, 0, 4, "stopEarly") == 0 {
 					o.N = irange(rt, 1, 2, "stopAfter")
